@@ -96,10 +96,11 @@ Definition msg_code (m : bmp_msg) : N :=
 Definition tlv_encode (t : N * bytes) : bytes :=
   be 2 (fst t) ++ be 2 (N.of_nat (length (snd t))) (* bin.len() as u16 *) ++ snd t.
 
-(* the bytes written between the common header and the length back-patch *)
+(* the bytes written between the common header and the length back-patch, for
+   the messages that are written in one piece *)
 Definition body_encode (m : bmp_msg) : bytes :=
   match m with
-  | RouteMonitoring h blob => pph_encode h ++ blob
+  | RouteMonitoring h blob => pph_encode h ++ blob      (* not used by bmp_encode: see rm_loop *)
   | StatsReports => []
   | PeerDown h r => pph_encode h ++ reason_encode r
   | PeerUp h la lp rp lo ro => pph_encode h ++ encode_ip la ++ be 2 lp ++ be 2 rp ++ (lo ++ ro)
@@ -109,16 +110,56 @@ Definition body_encode (m : bmp_msg) : bytes :=
 
 Definition VERSION : N := 3.
 
-(* BmpCodec::encode: appends one message to the buffer [c].  The length field is
-   written as 0 and back-patched once the body is complete. *)
+(* Message::begin: common header with a zero length; the caller remembers where
+   it starts.  Message::finish: back-patch the length of the message that starts
+   at [pos_first]. *)
+Definition begin (c : bytes) (code : N) : bytes := c ++ [VERSION] ++ be 4 0 ++ be 1 code.
+Definition finish (c : bytes) (pos_first : nat) : bytes :=
+  patch c (pos_first + 1) (be 4 (N.of_nat (length c - pos_first)))   (* len as u32 *).
+
+(* Message::pdu_len: length of the BGP PDU at the head of [b]; everything, if
+   [b] does not start with a complete PDU. *)
+Definition pdu_len (b : bytes) : nat :=
+  if (length b <? 19)%nat then length b
+  else let n := N.to_nat (be_dec (firstn 2 (skipn 16 b))) in
+       if ((n <? 19) || (length b <? n))%nat then length b else n.
+
+(* the pieces the Route Monitoring loop cuts the encode_to output into
+   (fuel: the length of the blob is enough, every piece but the last has >= 19 bytes) *)
+Fixpoint split_pdus (fuel : nat) (b : bytes) : list bytes :=
+  let n := pdu_len b in
+  let pdu := firstn n b in
+  let rest := skipn n b in
+  match rest with
+  | [] => [pdu]
+  | _ => match fuel with
+         | O => [pdu; rest]          (* not reached when fuel >= length b *)
+         | S fuel' => pdu :: split_pdus fuel' rest
+         end
+  end.
+
+(* the Route Monitoring loop: one message per PDU, each with its own common and
+   per-peer header; the last one is left open for the final [finish] *)
+Fixpoint rm_loop (h : pph) (code : N) (c : bytes) (pos_first : nat) (pdus : list bytes)
+  : bytes * nat :=
+  match pdus with
+  | [] => (c, pos_first)
+  | [p] => (c ++ pph_encode h ++ p, pos_first)
+  | p :: rest =>
+      let c1 := finish (c ++ pph_encode h ++ p) pos_first in
+      rm_loop h code (begin c1 code) (length c1) rest
+  end.
+
+(* BmpCodec::encode: appends the message(s) for one item to the buffer [c]. *)
 Definition bmp_encode (c : bytes) (m : bmp_msg) : bytes :=
   let pos_first := length c in
-  let c1 := c ++ [VERSION] in
-  let pos_len := length c1 in
-  let c2 := c1 ++ be 4 0 ++ be 1 (msg_code m) in
-  let c3 := c2 ++ body_encode m in
-  let len := (length c3 - pos_first)%nat in
-  patch c3 pos_len (be 4 (N.of_nat len))   (* len as u32 *).
+  let c0 := begin c (msg_code m) in
+  let '(c1, pf) :=
+    match m with
+    | RouteMonitoring h blob => rm_loop h (msg_code m) c0 pos_first (split_pdus (length blob) blob)
+    | _ => (c0 ++ body_encode m, pos_first)
+    end in
+  finish c1 pf.
 
 (* a Framed sink: every message appended to the same buffer *)
 Definition bmp_encode_all (c : bytes) (ms : list bmp_msg) : bytes := fold_left bmp_encode ms c.
